@@ -548,6 +548,9 @@ class Type4BTag(Type4Tag):
         super(Type4BTag, self).__init__(clf, target)
         self._nfcid = bytearray(target.sensb_res[1:5])
 
+        if len(target.sensb_res) < 12:
+            raise nfc.clf.ProtocolError("SENSB_RES shorter than 12 byte")
+
         log.debug("send ATTRIB command to activate the Type 4B Tag")
         if self.clf.max_recv_data_size < 256:
             log.warning("{0} does not support fsd 256".format(self.clf))
